@@ -3,6 +3,8 @@ package main
 import (
 	"encoding/json"
 	"fmt"
+	"os"
+	"runtime"
 	"sort"
 	"strings"
 	"sync"
@@ -293,9 +295,18 @@ func (w *world) dial(suffix string) *vclient.Client {
 	return c
 }
 
+var childStart = time.Now()
+var dumpOnce sync.Once
+
 func (w *world) inconclusive(s string) {
 	w.bad = true
-	w.e.run.Inconclusive(w.tag + ": " + s)
+	w.e.run.Inconclusive(fmt.Sprintf("%s (%s, %.1fs into the child): %s", w.tag, w.e.class, time.Since(childStart).Seconds(), s))
+	// for the post-mortem (the check's --keep): where is everybody?
+	dumpOnce.Do(func() {
+		buf := make([]byte, 8<<20)
+		n := runtime.Stack(buf, true)
+		fmt.Fprintf(os.Stderr, "\n==== goroutines at the first watchdog (%s) ====\n%s\n", s, buf[:n])
+	})
 }
 
 func (w *world) joinAs(c *vclient.Client, user string) bool {
